@@ -416,7 +416,7 @@ Lemma refresh_sss_version_free f l s ii :
   refresh_sss fmtv fmt_diff numeq f (mkmlas (with_version l s) ii) =
   option_map (fun l' => with_version l' s) (refresh_sss fmtv fmt_diff numeq f (mkmlas l ii)).
 Proof.
-  unfold refresh_sss. cbn [m_las m_index_initial with_version l_data l_curves l_well l_version].
+  unfold refresh_sss, index_of. cbn [m_las m_index_initial with_version l_data l_curves l_well l_version].
   repeat (match goal with |- context [bind ?x _] => destruct x; cbn [bind option_map]; [|reflexivity] end).
   reflexivity.
 Qed.
